@@ -1,6 +1,6 @@
 ---- MODULE MC_Validate ----
 EXTENDS Validate
 TAll == {"Parameter", "Number", "Integer", "Magnitude", "Date", "CalendarDate", "Boolean", "String", "Bytes",
-         "Callable", "Dict", "Tuple", "NumericTuple", "XYCoordinates", "Range", "DateRange", "CalendarDateRange",
+         "Callable", "Action", "Event", "Dict", "Tuple", "NumericTuple", "XYCoordinates", "Range", "DateRange", "CalendarDateRange",
          "List", "HookList", "Selector", "ListSelector", "ClassSelector", "Color"}
 ====
